@@ -464,6 +464,14 @@ func GenPricingIn(t *rapid.T, nowNs int64, denom string) string {
 	var sb strings.Builder
 	fmt.Fprintf(&sb, `{"price":"%s%s"`, price, denom)
 	nt := rapid.SampledFrom([]int{0, 0, 1, 2, 3}).Draw(t, "n_time")
+	if pct(t, "window_beyond_64bit_nanoseconds", 5) {
+		// one promotion window whose start or end lies where nanoseconds since 1970 leave 64 bits
+		// ("until further notice": 9999-12-31; "since ever": year 1)
+		nt = 0
+		st := rapid.SampledFrom([]string{fmtTime(nowNs - 10e9), "0001-01-01T00:00:00Z", fmtTime(nowNs + 5e9), "1500-06-01T00:00:00Z"}).Draw(t, "far_start")
+		en := rapid.SampledFrom([]string{"9999-12-31T23:59:59Z", fmtTime(nowNs + 10e9), "2300-01-01T00:00:00Z", "9999-12-31T23:59:59Z"}).Draw(t, "far_end")
+		fmt.Fprintf(&sb, `,"promotions_by_time":[{"start_time":"%s","end_time":"%s","discount":"%s"}]`, st, en, rapid.SampledFrom(discounts).Draw(t, "dt"))
+	}
 	if nt > 0 {
 		sb.WriteString(`,"promotions_by_time":[`)
 		cur := nowNs + rapid.SampledFrom([]int64{-10e9, 0, 1, 5e9, 10e9}).Draw(t, "t0")
